@@ -145,7 +145,7 @@ class World:
 def net_state(net):
     """The part of the simulated network that belongs to the *state* (not the history)."""
     return (
-        tuple((t.cid, t._closing, t.lost, t.fail_after, t.paused, t.eof_from_peer, t.closed_by)
+        tuple((t.cid, t._closing, t.lost, t.fail_after, t.paused, t.eof_from_peer, t.closed_by, t.buffered, t.linger)
               for t in net.conns if not t.lost),
         len(net.pending), net.auto,
     )
